@@ -66,7 +66,7 @@ func VerifC03_N3(v *VerifV) {
 		st.LastBlockHeight, st.LastBlockID, st.LastBlockTime = 0, types.BlockID{}, ts
 		v.Cover("initial-height")
 	}
-	aspect := v.Choice("aspect", 12)
+	aspect := v.Choice("aspect", 13)
 	header := &types.Header{Height: h, Time: ts, LastBlockID: st.LastBlockID, AppHash: st.AppHash,
 		ValidatorsHash: curVals.Hash(), NextValidatorsHash: nextVals.Hash(), ProposerAddress: types.VerifAddr(1)}
 	ok := true
@@ -116,6 +116,12 @@ func VerifC03_N3(v *VerifV) {
 	case 11:
 		commitHeight = h
 		ok = initial
+	case 12:
+		// the first block arrives without any LastCommit (BlockFromProto leaves it nil when the
+		// field is absent on the wire, and Block.ValidateBasic demands one only above height 1):
+		// whatever the verdict, validation must not crash the node (C18)
+		v.Assume(initial)
+		v.Cover("first-block-without-commit")
 	}
 	// the LastCommit
 	var commit *types.Commit
@@ -160,8 +166,14 @@ func VerifC03_N3(v *VerifV) {
 		// the block time rule uses the weighted median of the commit's timestamps (all ts here); an
 		// all-absent commit has no median: such a commit has no quorum either
 	}
+	if aspect == 12 {
+		commit = nil
+	}
 	block := types.NewBlock(header, nil, commit, nil, nil)
 	err := validateBlock(verifEvPool{}, nil, st, block)
+	if aspect == 12 {
+		return // no verdict demanded, only the implicit obligation that validation does not panic
+	}
 	if ok {
 		v.Assert(err == nil, "C03.validate.valid-extension-refused")
 		v.Cover("accepted")
